@@ -624,11 +624,19 @@ def rule_concat(E, R):
     fa = "functions::concat::concat_array"
     ha = E.hir(fa)
     if ha:
-        Sa = sem.Sem(E, ha, inline=False)
+        Sa = sem.Sem(E, ha)      # a private helper that does the appending is followed
+
+        def root_of(n_, fr_, limit=6):
+            """the caller's local a place expression denotes, through the parameters of followed helpers"""
+            b_ = sem.root_local(Sa, n_, fr_)
+            while b_ is not None and b_.kind == "arg" and b_.expr is not None and limit > 0:
+                limit -= 1
+                b_ = sem.root_local(Sa, b_.expr, b_.frame)
+            return b_
         tv = [x for x in Sa.sites() if x.node.get("k") == "Call" and norm(x.node.get("callee", "")).endswith("Array::try_from_vec")]
         V = sem.root_local(Sa, tv[0].node["args"][1], tv[0].frame) if tv and len(tv[0].node["args"]) > 1 else None
         ext = [x for x in Sa.sites() if x.node.get("k") == "MethodCall" and x.node["m"] == "extend" and V is not None and
-               sem.root_local(Sa, x.node["recv"], x.frame) is V]
+               root_of(x.node["recv"], x.frame) is V]
         # (a) every element taken out of the argument iterator with next() ends up in an extend
         nexts = [x for x in Sa.sites() if x.node.get("k") == "MethodCall" and x.node["m"] == "next" and
                  sem.param_index(Sa, x.node["recv"], x.frame, through_mut=True) == 1]
@@ -648,7 +656,16 @@ def rule_concat(E, R):
                 if b_ is not None and sem.param_index(Sa, cand, ls.frame, through_mut=True) == 1 and \
                         chain_verdict([{"m": m_} for m_ in ms if m_ not in ("flat_map", "chain", "once")], terminal_ok=()) == "ok":
                     whole = True
-            if whole and any(any(y is e.node for y in walk(ls.node)) for e in ext):
+            def in_this_loop(e_):
+                if any(y is e_.node for y in walk(ls.node)):
+                    return True
+                fr_ = e_.frame
+                while fr_ is not None and fr_.call is not None:      # appended by a helper called from the loop body
+                    if any(y is fr_.call for y in walk(ls.node)):
+                        return True
+                    fr_ = fr_.parent
+                return False
+            if whole and any(in_this_loop(e) for e in ext):
                 loop_ok = True
         # the same walk written as `<rest>.for_each(|arg| .. extend ..)`
         for fe in _for_each_over(Sa, 1):
